@@ -173,6 +173,11 @@ def reordered_closure(sch, n):
     return any(reordered(sch, x) for x in [n.lower()] + sch.ancestors(n))
 
 
+def redundant_supers(sch, n):
+    sup = [s.lower() for s in sch.ent(n)["supers"]]
+    return any(a != b and sch.is_a(b, a) for a in sup for b in sup)
+
+
 def has_diamond(sch, n):
     seen = set()
     for sp in sch.ent(n)["supers"]:
@@ -259,7 +264,8 @@ def compare(d, defs, info):
                 kind = "ctor-repeated-inherited-attribute"
             elif any(a.get("redecl") for x in closure for a in sch.ent(x)["attrs"]):
                 kind = "ctor-extra-parameter-for-redeclared-attribute"
-            elif sorted(got_names) == sorted(exp_all) and reordered_closure(sch, name):
+            elif sorted((g[:-1] if g.endswith("_") and g[:-1] in exp_all else g) for g in got_names) == sorted(exp_all) \
+                    and reordered_closure(sch, name):
                 kind = "ctor-follows-reordered-bases"
             probs.append((kind, "entity %s: constructor parameters %s, Part 21 order %s" % (name.lower(), got_names, exp_all)))
     for t in d["types"]:
@@ -441,7 +447,10 @@ def evaluate(text, d, wd, alias_ok=False):
         res["probs"].append(("import", "import fails%s: %s | %s" % ((" (schema uses %s as identifier)" % hard) if hard else "", js["import_error"],
                                                                     js.get("tb", "")[-300:].replace("\n", " | "))))
         if res["sig"] is None:
-            res["sig"] = SIG_KW if hard else "import:" + re.sub(r"'[^']*'", "'X'", js["import_error"])[:50]
+            if "consistent method resolution" in js["import_error"]:
+                res["sig"] = "import:mro-conflict"
+            else:
+                res["sig"] = SIG_KW if hard else "import:" + re.sub(r"'[^']*'", "'X'", js["import_error"])[:50]
         return res
     probs = compare(d, js["defs"], info)
     if js.get("schema_name", "").lower() != d["name"].lower():
@@ -461,6 +470,8 @@ SHAPES = [
      lambda d, sch: any(has_diamond(sch, e["name"]) for e in d["entities"])),
     ("bases-order", "an entity lists a supertype with a shorter supertype chain before one with a longer chain (open finding: bases and inherited parameters re-ordered)",
      lambda d, sch: any(reordered(sch, e["name"]) for e in d["entities"])),
+    ("import:mro-conflict", "an entity lists a supertype that is also an ancestor of another listed supertype (open finding: base order not a valid Python MRO)",
+     lambda d, sch: any(redundant_supers(sch, e["name"]) for e in d["entities"])),
     ("ctor-extra-parameter-for-redeclared-attribute", "an entity re-declares an inherited explicit attribute (open finding: extra constructor parameter)",
      lambda d, sch: any(a.get("redecl") for e in d["entities"] for a in e["attrs"])),
 ]
@@ -537,7 +548,7 @@ def replay_files(f):
 def main(tier, seed):
     setup()
     workers = max(2, min(12, common.NPROC - 2))
-    n_ex = 200 if tier == "quick" else 1500
+    n_ex = 350 if tier == "quick" else 1500
     return c17run.run(PROP, "exploration", RULE, tier, seed, make_strategy, case, confirm, replay_files, workers, n_ex,
                       min_cases=workers * n_ex // 3,
                       post=lambda ev: ev.assumptions.extend([
